@@ -9,12 +9,13 @@ from fractions import Fraction
 from . import common as C
 from . import debiasers, realruns as R
 
-GEN_FILES = ["GenScalars", "GenIsimip", "GenUtils"]
+GEN_FILES = ["GenPrecip", "GenConfig", "GenScalars", "GenIsimip", "GenUtils"]
 TRUSTED = ["C10: the value-adjustment of ISIMIP step 6 is a parameter of the model (its range is proved for the non-parametric branch via C16, assumed for fitted distributions with fixed floc/fscale); steps 1/8 (rsds) and the precipitation outputs of QM/SDM/CDFt/ISIMIP are searched on the implementation",
            "C10: hypothesis of the property: each window keeps enough in-threshold values (the 'no pseudo-future observation between thresholds' fallback leaves values unadjusted by design)"]
 
 def correspondence(res, tier, seed):
     debiasers.k5(res, tier, seed, tag="k5c10", n_quick=12, n_thorough=120)
+    debiasers.k15_relative(res, tier, seed, tag="k15rc10")
     logging.getLogger("ibicus").setLevel(logging.CRITICAL)
     from ibicus.debias import ISIMIP
     r = C.rng_for(seed, "c10-corr")
@@ -129,7 +130,9 @@ def search(res, tier, seed, deep=False):
                         report("gap:" + var, inp, dict(low=out[gap_lo][:3].tolist(), high=out[gap_hi][:3].tolist()), "ISIMIP output strictly between a bound and its threshold")
             # precipitation outputs of the other debiasers
             cfgs = [("LinearScaling", {}), ("DeltaChange", {}), ("QuantileMapping", {}), ("QuantileMapping", dict(censored=True)), ("ScaledDistributionMapping", {}),
-                    ("CDFt", {}), ("QuantileDeltaMapping", {})]
+                    ("CDFt", {}), ("QuantileDeltaMapping", {}),
+                    ("CDFt", dict(long=True)),                                 # several year-windows of cm_future in turn
+                    ("QuantileDeltaMapping", dict(years_window=False))]        # the year window switched off
             for name, opt in cfgs:
                 for mode in (["none", "days"] if tier != "quick" else [["none", "days"][(rnd + len(name)) % 2]]):
                     rs = np.random.RandomState(r.randint(0, 10 ** 6))
@@ -138,11 +141,18 @@ def search(res, tier, seed, deep=False):
                         # a day window holds only (window length x years) values: keep enough wet days in every
                         # window for the distribution fits (a window with < 2 wet values legitimately raises)
                         n = 1461; dry = min(dry, 0.3)
-                    obs, hist, fut = bounded_series(rs, "pr", n, dry, 0), bounded_series(rs, "pr", n, min(0.95, dry * 1.4), 0.8), bounded_series(rs, "pr", n, dry * 0.8, 0.4)
-                    tO, tF = R.times(n, "1981-01-01"), R.times(n, "2041-01-01")
+                    nF = n
+                    if opt.get("long"):
+                        nF = 365 * 24; dry = min(dry, 0.6)
+                    obs, hist, fut = bounded_series(rs, "pr", n, dry, 0), bounded_series(rs, "pr", n, min(0.95, dry * 1.4), 0.8), bounded_series(rs, "pr", nF, dry * 0.8, 0.4)
+                    tO, tF = R.times(n, "1981-01-01"), R.times(nF, "2041-01-01")
                     try:
                         if opt.get("censored"):
                             d = D.QuantileMapping.for_precipitation(model_type="censored", running_window_mode=(mode == "days"))
+                        elif "years_window" in opt:
+                            d = R.build(name, "pr", mode if mode == "none" else "days", r, running_window_mode_over_years_of_cm_future=False)
+                        elif opt.get("long"):
+                            d = D.CDFt.from_variable("pr", running_window_mode=(mode == "days"))      # default year window 17 / 9
                         else:
                             d = R.build(name, "pr", mode if mode == "none" else "days", r)
                         np.random.seed(4)
